@@ -144,6 +144,7 @@ fn corrupt_inplace(attrs: &mut Vec<A>, attr: &str, corrupt: &str, as4: bool) {
                 attrs[idx] = corrupt_len(attr, as4)
             }
         }
+        "len_plus1" => attrs[idx].data.push(2),
         "flags_opt" => attrs[idx].flags ^= 0x80,
         "flags_trans" => attrs[idx].flags ^= 0x40,
         "value" => {
